@@ -265,6 +265,10 @@ func (e *Engine) rpcCheck(n *node) {
 				if glu != "skipped" && g10 != "nf" && !strings.HasPrefix(g10, "err:") && g10 != "panic" {
 					report("v10", "get-storage-last-update-block", query{Kind: "lu", Addr: &a, Slot: &sl}, glu,
 						e.expectedOn(n, st, query{Kind: "lu", Addr: &a, Slot: &sl}, t.label == "latest"))
+				} else if glu != "skipped" && glu != g10 {
+					// the request without the flag was refused (contract not found / error): the flag must not
+					// change that
+					report("v10", "get-storage-with-last-update-block", q, glu, want10)
 				}
 			}
 		}
